@@ -60,9 +60,9 @@ def load_known_findings():
 
 
 def registry():
-    import c_path, c_core, c_mem
+    import c_path, c_core, c_mem, c_wrap
     reg = {}
-    for mod in (c_path, c_core, c_mem):
+    for mod in (c_path, c_core, c_mem, c_wrap):
         reg.update(mod.PROPS)
     return reg
 
@@ -83,7 +83,7 @@ def run_check(pid, tier, seed):
     os.makedirs(replay_dir, exist_ok=True)
 
     # ---- 1. proofs
-    rvlib.coq_prepare()
+    gen_failed = rvlib.coq_prepare()
     pfile = os.path.join(COQ, "Properties", pid + ".v")
     thms = rvlib.theorems_in(pfile)
     targets = ["Properties/%s.vo" % pid] + list(P.get("extra_targets", []))
@@ -96,6 +96,13 @@ def run_check(pid, tier, seed):
         tail = out[-2500:]
         broken.append({"kind": "proof", "detail": tail})
         log("PROOF BUILD FAILED for %s:\n%s" % (pid, tail))
+    deps = rvlib.coq_deps(pfile)
+    for gfile, msg in gen_failed.items():
+        if gfile in deps:
+            # the model this property's theorems are about could not be regenerated from the current source
+            broken.append({"kind": "translator", "detail": "%s could not be regenerated: %s" % (gfile, msg)})
+            proof_ok = False
+            log("TRANSLATOR FAILED for %s: %s" % (gfile, msg))
     hygiene = rvlib.coq_audit_grep()
     shape = rvlib.check_properties_file_shape(pfile)
     if hygiene:
